@@ -2,7 +2,9 @@ package c04
 
 import (
 	"fmt"
+	"math"
 	"strings"
+	"unicode/utf8"
 
 	"go.opentelemetry.io/otel/verif/internal/vk"
 	"pgregory.net/rapid"
@@ -36,7 +38,12 @@ type LinkD struct {
 //	error : RecordError(err(Err, Text), WithAttributes(KVs...)[, WithStackTrace(true)][, WithTimestamp(TS)])
 //	status: SetStatus(Code, Text)
 //	name  : SetName(Text)
-//	end   : End([WithTimestamp(TS)])
+//	end   : End([WithTimestamp(TS)][, WithStackTrace(true|false)]), called plainly
+//	        (Panic 0), as the deferred call of a goroutine that is panicking
+//	        with the value panicValue(PanicVal, Text) (Panic 1: `defer
+//	        span.End(...)`), or from inside a deferred closure of such a
+//	        goroutine (Panic 2: `defer func() { span.End(...) }()`, where the
+//	        language does not let End see the panic)
 type Op struct {
 	Op     string  `json:"op"`
 	KVs    []vk.KV `json:"kvs,omitempty"`
@@ -49,6 +56,17 @@ type Op struct {
 	Code   int     `json:"code,omitempty"` // 0 Unset, 1 Error, 2 Ok
 	Err    int     `json:"err,omitempty"`  // 0 nil, 1 errors.New, 2 value type, 3 pointer type
 	Stack  bool    `json:"stack,omitempty"`
+	// StackOff: the explicit default, WithStackTrace(false) (error / end ops;
+	// ignored when Stack is set).
+	StackOff bool `json:"stack_off,omitempty"`
+	// end ops only: how End is reached (see above) and what the goroutine
+	// panics with (0 string, 1 errors.New, 2 error value type, 3 error pointer
+	// type, 4 int, 5 a struct that is not an error).
+	Panic    int `json:"panic,omitempty"`
+	PanicVal int `json:"panic_val,omitempty"`
+	// event / link / error ops: the call is made Rep+1 times; repetition j > 0
+	// appends "#j" to the event name / error message (see expand).
+	Rep int `json:"rep,omitempty"`
 	// Re-use of the caller's KVs slice OBJECT (attrs / event / error ops):
 	// Share 1: the sibling span's corresponding call gets the very same slice
 	// right after the primary call returned; Share 2: the sibling's call runs
@@ -94,6 +112,72 @@ var pieces = []string{"\uFFFD", "\uFFFD", "\u00e9", "a", "\u4e16", "\U0001F600",
 
 var tracestates = []string{"", "", "k=v", "a=1,b=2", "vendor@x=opaque"}
 
+// genOpts is the attribute generator's configuration plus the value length
+// limits in play (primary and sibling), so that strings can be built to land
+// on, just under and just over whatever the limits are.
+type genOpts struct {
+	vk.KVOpts
+	vlens []int // the finite, positive value length limits of the case
+	big   bool  // occasionally draw very long attribute lists
+	// longBias: a value length limit of the case is beyond what the short
+	// strings reach.
+	longBias bool
+}
+
+// wideCounts: list lengths / repeat counts on a log scale, past every limit the
+// generator draws (128, 129, 200) .
+var wideCounts = []int{13, 16, 20, 31, 33, 64, 100, 127, 128, 129, 130, 200, 300}
+
+// genLong draws a long string: a short pattern of pieces repeated up to a
+// target number of characters which is either near one of the value length
+// limits of the case (limit-1, limit, limit+1, 2*limit: for single-byte
+// patterns also the byte-length boundary "at most limit bytes is left alone")
+// or from a log scale up to 700.
+func genLong(t *rapid.T, o genOpts) vk.Str {
+	var target int
+	if len(o.vlens) > 0 && rapid.IntRange(0, 3).Draw(t, "nearlimit") > 0 {
+		l := rapid.SampledFrom(o.vlens).Draw(t, "vlen")
+		target = max(l+rapid.SampledFrom([]int{-1, 0, 0, 1, 1, 2, l}).Draw(t, "delta"), 1)
+	} else {
+		target = rapid.SampledFrom([]int{13, 20, 32, 64, 127, 128, 129, 200, 256, 700}).Draw(t, "longlen")
+	}
+	alphabet := pieces
+	switch rapid.IntRange(0, 2).Draw(t, "longalphabet") {
+	case 0:
+		alphabet = []string{"a", "b", "z", " "} // bytes == characters
+	case 1:
+		alphabet = []string{"\u00e9", "a", "\u4e16", "\U0001F600", "\uFFFD"} // valid, mixed widths
+	}
+	pat := rapid.SliceOfN(rapid.SampledFrom(alphabet), 1, 4).Draw(t, "pattern")
+	var sb strings.Builder
+	for i := 0; i < target; i++ {
+		sb.WriteString(pat[i%len(pat)])
+	}
+	// optionally one hostile piece somewhere: start, middle, right at the cut
+	// or at the very end.
+	out := sb.String()
+	if rapid.IntRange(0, 2).Draw(t, "inject") == 0 {
+		at := rapid.SampledFrom([]int{0, len(out) / 2, len(out)}).Draw(t, "injectat")
+		for at < len(out) && at > 0 && !utf8.RuneStart(out[at]) {
+			at++
+		}
+		out = out[:at] + rapid.SampledFrom(pieces).Draw(t, "injected") + out[at:]
+	}
+	return vk.Str(out)
+}
+
+// genString: the special / long replacement for a string payload, "" = keep.
+func genString(t *rapid.T, o genOpts, keep *vk.Str) {
+	k := rapid.IntRange(0, 15).Draw(t, "special")
+	switch {
+	case k <= 3:
+		*keep = genSpecial(t)
+	case k == 4, k <= 7 && o.longBias:
+		// (more often when only a long string can reach a limit of the case)
+		*keep = genLong(t, o)
+	}
+}
+
 // genSpecial draws a string built to stress the truncation rules: runs of
 // one character (notably U+FFFD) and mixtures with invalid bytes, of 1..12
 // pieces so that every limit in {0,1,2,3,5} cuts it.
@@ -110,19 +194,25 @@ func genSpecial(t *rapid.T) vk.Str {
 }
 
 // genKVs wraps vk.GenKVs and swaps some string payloads for special strings.
-func genKVs(t *rapid.T, o vk.KVOpts, label string, max int, corners ...int) []vk.KV {
-	kvs := vk.GenKVs(o, max, corners...).Draw(t, label)
+func genKVs(t *rapid.T, o genOpts, label string, max int, corners ...int) []vk.KV {
+	var kvs []vk.KV
+	if o.big && rapid.IntRange(0, 5).Draw(t, "biglist") == 0 {
+		// a list far longer than any count limit, in ONE call
+		n := rapid.SampledFrom(wideCounts).Draw(t, "bign")
+		g := vk.GenKV(o.KVOpts)
+		for i := 0; i < n; i++ {
+			kvs = append(kvs, g.Draw(t, "kv"))
+		}
+	} else {
+		kvs = vk.GenKVs(o.KVOpts, max, corners...).Draw(t, label)
+	}
 	for i := range kvs {
 		switch kvs[i].T {
 		case "str":
-			if rapid.IntRange(0, 3).Draw(t, "special") == 0 {
-				kvs[i].S = genSpecial(t)
-			}
+			genString(t, o, &kvs[i].S)
 		case "strs":
 			for j := range kvs[i].SS {
-				if rapid.IntRange(0, 3).Draw(t, "special") == 0 {
-					kvs[i].SS[j] = genSpecial(t)
-				}
+				genString(t, o, &kvs[i].SS[j])
 			}
 		}
 	}
@@ -141,7 +231,7 @@ func genHex(t *rapid.T, nbytes int, label string) string {
 	}
 }
 
-func genLink(t *rapid.T, o vk.KVOpts) LinkD {
+func genLink(t *rapid.T, o genOpts) LinkD {
 	l := LinkD{
 		TID:    genHex(t, 16, "tid"),
 		SID:    genHex(t, 8, "sid"),
@@ -169,7 +259,7 @@ func genTS(t *rapid.T) int64 {
 	}
 }
 
-func genOp(t *rapid.T, o vk.KVOpts, idx int, heavy bool, allowEnd bool, hasSib bool) Op {
+func genOp(t *rapid.T, o genOpts, idx int, heavy bool, allowEnd bool, hasSib bool) Op {
 	op := genOp1(t, o, idx, heavy, allowEnd)
 	switch op.Op {
 	case "attrs", "event", "error":
@@ -181,7 +271,32 @@ func genOp(t *rapid.T, o vk.KVOpts, idx int, heavy bool, allowEnd bool, hasSib b
 	return op
 }
 
-func genOp1(t *rapid.T, o vk.KVOpts, idx int, heavy bool, allowEnd bool) Op {
+// genEnd draws an End call: options and the way it is reached.
+func genEnd(t *rapid.T) Op {
+	op := Op{Op: "end", HasTS: rapid.Bool().Draw(t, "endhasts")}
+	if op.HasTS {
+		op.TS = genTS(t)
+	}
+	genStack(t, &op)
+	op.Panic = rapid.SampledFrom([]int{0, 0, 0, 1, 1, 2}).Draw(t, "endpanic")
+	if op.Panic != 0 {
+		op.PanicVal = rapid.IntRange(0, 5).Draw(t, "panicval")
+		op.Text = vk.GenText(5, true).Draw(t, "panicmsg")
+	}
+	return op
+}
+
+// genStack draws the stack trace option: absent, true, or the explicit false.
+func genStack(t *rapid.T, op *Op) {
+	switch rapid.IntRange(0, 5).Draw(t, "stack") {
+	case 0, 1:
+		op.Stack = true
+	case 2:
+		op.StackOff = true
+	}
+}
+
+func genOp1(t *rapid.T, o genOpts, idx int, heavy bool, allowEnd bool) Op {
 	kinds := []string{"attrs", "attrs", "attrs", "attrs", "attrs", "event", "event", "event", "link", "link", "error", "error", "status", "status", "name"}
 	if heavy {
 		for i := 0; i < 60; i++ {
@@ -197,7 +312,10 @@ func genOp1(t *rapid.T, o vk.KVOpts, idx int, heavy bool, allowEnd bool) Op {
 	case "attrs":
 		if heavy {
 			n := rapid.IntRange(9, 12).Draw(t, "heavylen")
-			g := vk.GenKV(o)
+			if rapid.IntRange(0, 9).Draw(t, "heavybig") == 0 {
+				n = rapid.SampledFrom(wideCounts).Draw(t, "heavybign")
+			}
+			g := vk.GenKV(o.KVOpts)
 			for i := 0; i < n; i++ {
 				op.KVs = append(op.KVs, g.Draw(t, "kv"))
 			}
@@ -222,7 +340,7 @@ func genOp1(t *rapid.T, o vk.KVOpts, idx int, heavy bool, allowEnd bool) Op {
 		op.Err = rapid.SampledFrom([]int{0, 1, 1, 2, 3}).Draw(t, "err")
 		op.Text = text.Draw(t, "msg")
 		op.KVs = genKVs(t, o, "kvs", 6, 0, 0, 1, 2, 3)
-		op.Stack = rapid.IntRange(0, 3).Draw(t, "stack") == 0
+		genStack(t, &op)
 		op.HasTS = rapid.Bool().Draw(t, "hasts")
 		if op.HasTS {
 			op.TS = genTS(t)
@@ -233,38 +351,49 @@ func genOp1(t *rapid.T, o vk.KVOpts, idx int, heavy bool, allowEnd bool) Op {
 	case "name":
 		op.Text = text.Draw(t, "name")
 	case "end":
-		op.HasTS = rapid.Bool().Draw(t, "hasts")
-		if op.HasTS {
-			op.TS = genTS(t)
-		}
+		op = genEnd(t)
 	}
 	return op
 }
 
+// genLimit draws one span limit: mostly the small values every list of a case
+// straddles, sometimes the defaults' neighbourhood, sometimes anything else a
+// configuration may hold, including every spelling of "unlimited" (any
+// negative value).
+func genLimit(t *rapid.T, label string) int {
+	switch rapid.IntRange(0, 9).Draw(t, label+"_kind") {
+	case 0:
+		return rapid.SampledFrom(wideLimits).Draw(t, label)
+	case 1:
+		return rapid.SampledFrom(negativeLimits).Draw(t, label)
+	default:
+		return rapid.SampledFrom(limitValues).Draw(t, label)
+	}
+}
+
+var wideLimits = []int{4, 6, 7, 8, 9, 10, 11, 12, 13, 16, 31, 32, 33, 64, 127, 128, 129, 200, 1000, math.MaxInt32, math.MaxInt64}
+
+var negativeLimits = []int{-1, -2, -3, -128, -129, math.MinInt32, math.MinInt64}
+
+func finiteVlens(ls ...int) []int {
+	var out []int
+	for _, l := range ls {
+		if l > 0 && l <= 1000 {
+			out = append(out, l)
+		}
+	}
+	return out
+}
+
 func gen(t *rapid.T) Case {
 	c := Case{}
-	lim := rapid.SampledFrom(limitValues)
 	c.Limits = Limits{
-		ValueLen: lim.Draw(t, "value_len"),
-		Attrs:    lim.Draw(t, "attrs"),
-		Events:   lim.Draw(t, "events"),
-		Links:    lim.Draw(t, "links"),
-		PerEvent: lim.Draw(t, "per_event"),
-		PerLink:  lim.Draw(t, "per_link"),
-	}
-	// Key alphabet: small (many duplicates, reaches the small capacities) or
-	// large (reaches 128 distinct keys in attribute-heavy programs).
-	o := vk.KVOpts{Keys: smallKeys, EmptyKey: true, Invalid: true, InvalidUTF8: true, NaN: true, MaxSlice: 3, MaxTextParts: 8}
-	heavy := false
-	switch rapid.IntRange(0, 15).Draw(t, "alphabet") {
-	case 0:
-		// attribute-heavy program over 1000 keys: reaches the default
-		// capacity of 128 and large unlimited maps.
-		o.Keys = largeKeys
-		heavy = true
-		c.Limits.Attrs = rapid.SampledFrom([]int{128, 128, -1, 5}).Draw(t, "heavyattrs")
-	case 1, 2:
-		o.Keys = largeKeys[:12]
+		ValueLen: genLimit(t, "value_len"),
+		Attrs:    genLimit(t, "attrs"),
+		Events:   genLimit(t, "events"),
+		Links:    genLimit(t, "links"),
+		PerEvent: genLimit(t, "per_event"),
+		PerLink:  genLimit(t, "per_link"),
 	}
 	// Sibling provider: mostly unlimited or larger than the primary's limits.
 	if rapid.Bool().Draw(t, "hassib") {
@@ -277,6 +406,41 @@ func gen(t *rapid.T) Case {
 			PerEvent: rapid.SampledFrom([]int{-1, -1, 128, 2}).Draw(t, "sib_per_event"),
 			PerLink:  -1,
 		}
+	}
+	// Key alphabet: small (many duplicates, reaches the small capacities) or
+	// large (reaches 128 distinct keys in attribute-heavy programs).
+	o := genOpts{KVOpts: vk.KVOpts{Keys: smallKeys, EmptyKey: true, Invalid: true, InvalidUTF8: true, NaN: true, MaxSlice: 3, MaxTextParts: 8}}
+	heavy := false
+	queueHeavy := false
+	switch rapid.IntRange(0, 15).Draw(t, "alphabet") {
+	case 0:
+		// attribute-heavy program over 1000 keys: reaches the default
+		// capacity of 128 and large unlimited maps.
+		o.Keys = largeKeys
+		heavy = true
+		c.Limits.Attrs = rapid.SampledFrom([]int{128, 128, 127, 129, 200, -1, -2, 5}).Draw(t, "heavyattrs")
+	case 1, 2:
+		o.Keys = largeKeys[:12]
+	case 3, 4:
+		// queue-heavy program: bursts of events / links past the default
+		// capacities of 128, and event / link / start attribute lists past the
+		// default per-item caps.
+		queueHeavy = true
+		o.Keys = largeKeys[:40]
+		o.big = true
+		big := []int{128, 128, 127, 129, 64, 200, -1, 5}
+		c.Limits.Events = rapid.SampledFrom(big).Draw(t, "qevents")
+		c.Limits.Links = rapid.SampledFrom(big).Draw(t, "qlinks")
+		c.Limits.PerEvent = rapid.SampledFrom(big).Draw(t, "qperevent")
+		c.Limits.PerLink = rapid.SampledFrom(big).Draw(t, "qperlink")
+	}
+	if c.HasSib {
+		o.vlens = finiteVlens(c.Limits.ValueLen, c.Sib.ValueLen)
+	} else {
+		o.vlens = finiteVlens(c.Limits.ValueLen)
+	}
+	for _, l := range o.vlens {
+		o.longBias = o.longBias || l > 5
 	}
 	c.Name = vk.GenText(4, true).Draw(t, "spanname")
 	c.Kind = rapid.IntRange(0, 5).Draw(t, "kind")
@@ -292,29 +456,55 @@ func gen(t *rapid.T) Case {
 	}
 	if rapid.IntRange(0, 3).Draw(t, "hasstartlinks") == 0 {
 		n := rapid.IntRange(1, 4).Draw(t, "nstartlinks")
+		ol := o
+		if queueHeavy && rapid.IntRange(0, 2).Draw(t, "manystartlinks") == 0 {
+			n = rapid.SampledFrom(wideCounts).Draw(t, "nmanystartlinks")
+			ol.big = false // many links or long lists per link, not both: cost
+		}
 		for i := 0; i < n; i++ {
-			c.StartLinks = append(c.StartLinks, genLink(t, o))
+			c.StartLinks = append(c.StartLinks, genLink(t, ol))
 		}
 	}
 	pre := vk.GenLen(34, 0, 1, 2, 3, 5, 8, 12).Draw(t, "pre")
 	if heavy {
 		pre = rapid.IntRange(18, 34).Draw(t, "heavypre")
 	}
+	if queueHeavy {
+		pre = rapid.IntRange(3, 10).Draw(t, "queuepre")
+	}
 	for i := 0; i < pre; i++ {
-		c.Ops = append(c.Ops, genOp(t, o, i, heavy, false, c.HasSib))
+		op := genOp(t, o, i, heavy, false, c.HasSib)
+		genRep(t, &op, queueHeavy)
+		c.Ops = append(c.Ops, op)
 	}
 	// An explicit End (otherwise the runner ends the span after the last
 	// call), followed by calls that must change nothing.
 	if rapid.IntRange(0, 5).Draw(t, "explicitend") > 0 {
-		end := Op{Op: "end", HasTS: rapid.Bool().Draw(t, "endhasts")}
-		if end.HasTS {
-			end.TS = genTS(t)
-		}
-		c.Ops = append(c.Ops, end)
+		c.Ops = append(c.Ops, genEnd(t))
 		post := rapid.SampledFrom([]int{0, 0, 1, 1, 2, 3, 5}).Draw(t, "post")
 		for i := 0; i < post; i++ {
-			c.Ops = append(c.Ops, genOp(t, o, pre+1+i, false, true, c.HasSib))
+			op := genOp(t, o, pre+1+i, false, true, c.HasSib)
+			genRep(t, &op, false)
+			c.Ops = append(c.Ops, op)
 		}
 	}
 	return c
+}
+
+// genRep makes a burst of an event / link / error op: the call is repeated
+// Rep more times (a fresh argument slice each time).
+func genRep(t *rapid.T, op *Op, queueHeavy bool) {
+	switch op.Op {
+	case "event", "link", "error":
+	default:
+		return
+	}
+	if queueHeavy {
+		// (a very long attribute list is not repeated as well: cost)
+		if len(op.KVs) <= 12 && (op.Link == nil || len(op.Link.Attrs) <= 12) && rapid.IntRange(0, 2).Draw(t, "burst") == 0 {
+			op.Rep = rapid.SampledFrom(wideCounts).Draw(t, "rep")
+		}
+		return
+	}
+	op.Rep = rapid.SampledFrom([]int{0, 0, 0, 0, 0, 0, 0, 0, 0, 1, 2, 7}).Draw(t, "rep")
 }
